@@ -613,6 +613,116 @@ pub fn run(ctx: &Ctx) {
 }
 
 // ------------------------------------------------------------------------------------------------
+// the bundled HTTP signatures through parallel mode, for every address and port choice
+// ------------------------------------------------------------------------------------------------
+/// endpoints of connection `j`: distinct IPv4 hosts, one IPv4 host talking to itself, distinct IPv6 hosts, one IPv6 host talking to itself
+fn endpoints(j: usize) -> (Ip, Ip, u16, u16) {
+    let cport = 20000 + (j as u16 % 40000);
+    let sport = [80u16, 8080, 1024, 49152][(j / 4) % 4];
+    let mut a6 = [0u8; 16];
+    a6[0] = 0x20;
+    a6[1] = 0x01;
+    a6[15] = 1 + (j % 200) as u8;
+    let mut b6 = a6;
+    b6[14] = 9;
+    match j % 4 {
+        0 => (Ip::V4(Ip4 { src: [10, 9, (j % 250) as u8, 7], dst: [10, 9, 8, 6], ..Ip4::default() }), Ip::V4(Ip4 { src: [10, 9, 8, 6], dst: [10, 9, (j % 250) as u8, 7], ..Ip4::default() }), cport, sport),
+        1 => (Ip::V4(Ip4 { src: [127, 0, 0, 1], dst: [127, 0, 0, 1], ..Ip4::default() }), Ip::V4(Ip4 { src: [127, 0, 0, 1], dst: [127, 0, 0, 1], ..Ip4::default() }), cport, sport),
+        2 => (Ip::V6(crate::gen::frames::Ip6 { src: a6, dst: b6, ..Default::default() }), Ip::V6(crate::gen::frames::Ip6 { src: b6, dst: a6, ..Default::default() }), cport, sport),
+        _ => (Ip::V6(crate::gen::frames::Ip6 { src: a6, dst: a6, ..Default::default() }), Ip::V6(crate::gen::frames::Ip6 { src: a6, dst: a6, ..Default::default() }), cport, sport),
+    }
+}
+
+/// one connection per (signature, instantiation): SYN, a request, and - for response signatures - the conforming response
+fn parallel_conns() -> Vec<(String, Vec<Vec<u8>>)> {
+    let db = drive::default_db();
+    let mut conns: Vec<(String, Vec<Vec<u8>>)> = vec![];
+    let generic_request = b"GET / HTTP/1.1\r\nHost: example.test\r\nUser-Agent: probe/1.0\r\nAccept: */*\r\n\r\n".to_vec();
+    let all_sigs: Vec<(bool, &dh::Signature)> = db.http_request.entries.iter().flat_map(|(_, s)| s.iter().map(|x| (true, x))).chain(db.http_response.entries.iter().flat_map(|(_, s)| s.iter().map(|x| (false, x)))).collect();
+    for (request, sig) in all_sigs {
+        for inst in http_instances(sig, request) {
+            let j = conns.len();
+            let (cip, sip, cp, sp) = endpoints(j);
+            let mut frames = vec![frame(Link::Ether, &cip, &Tcp { sport: cp, dport: sp, seq: 10, flags: fr::SYN, ..Tcp::default() })];
+            let req = if request { http_message(&inst, true) } else { generic_request.clone() };
+            frames.push(frame(Link::Ether, &cip, &Tcp { sport: cp, dport: sp, seq: 11, ack: 1, flags: fr::ACK | fr::PSH, payload: req, ..Tcp::default() }));
+            if !request {
+                frames.push(frame(Link::Ether, &sip, &Tcp { sport: sp, dport: cp, seq: 500, ack: 11, flags: fr::ACK | fr::PSH, payload: http_message(&inst, false), ..Tcp::default() }));
+            }
+            conns.push((format!("{}`{}` {}", if request { "request " } else { "response " }, sig, inst.class), frames));
+        }
+    }
+    conns
+}
+const PAR_BATCH: usize = 24;
+
+/// Ok(false) = inconclusive (the pool's result channel never closed)
+fn check_parallel_batch(conns: &[(String, Vec<Vec<u8>>)], bi: u64) -> Result<bool, Fail> {
+    use crate::pool::PoolKind;
+    let batch = match conns.chunks(PAR_BATCH).nth(bi as usize) {
+        Some(b) => b,
+        None => return Err(fail!("bad-replay", "no batch {bi}")),
+    };
+    // interleave: all SYNs, then all requests, then all responses
+    let mut frames: Vec<Vec<u8>> = vec![];
+    for round in 0..3 {
+        for (_, f) in batch.iter() {
+            if let Some(x) = f.get(round) {
+                frames.push(x.clone());
+            }
+        }
+    }
+    let mut hs = HttpState::new(1000);
+    let mut reference: Vec<(String, String)> = vec![];
+    for f in &frames {
+        if let Ok(r) = hs.feed(f, true) {
+            reference.extend(drive::http_keyed(&r));
+        }
+    }
+    let workers = 2 + (bi as usize % 6);
+    let got = match crate::props::c10::api_parallel(PoolKind::Http, &frames, 1000, workers, frames.len() + 64, 1 + (bi as usize * 7) % 32, 5) {
+        Ok(Some(g)) => g,
+        Ok(None) => return Ok(false),
+        Err(e) => return Err(fail!("parallel-mode:setup", "{e}")),
+    };
+    let (mut a, mut b) = (reference.clone(), got.clone());
+    a.sort();
+    b.sort();
+    if a != b {
+        let missing: Vec<&(String, String)> = a.iter().filter(|x| !b.contains(x)).collect();
+        let extra: Vec<&(String, String)> = b.iter().filter(|x| !a.contains(x)).collect();
+        return Err(fail!("parallel-mode:signature-reached-sequentially-but-not-in-parallel-mode", "batch {bi} ({} connections, e.g. {}), {workers} workers: sequential {} results, parallel mode {}\nmissing {}\nextra   {}", batch.len(), batch[0].0, a.len(), b.len(), crate::engine::truncate(&format!("{:?}", missing.first()), 400), crate::engine::truncate(&format!("{:?}", extra.first()), 400)));
+    }
+    Ok(true)
+}
+
+pub fn run_parallel_mode(ctx: &Ctx) {
+    let conns = parallel_conns();
+    let nb = conns.chunks(PAR_BATCH).count() as u64;
+    ctx.run_indexed(
+        "http-signatures-parallel-mode",
+        "every HTTP request / response signature of p0f.fp x its instantiation classes, one connection each (SYN, request, conforming response), with the address and port choice varied per connection (distinct IPv4 hosts, one IPv4 host talking to itself, distinct IPv6 hosts, one IPv6 host talking to itself; four server ports), 24 connections per capture, through HuginnNetHttp parallel mode (with_config, 2..7 workers, init_pool, analyze_pcap); oracle: the labels, qualities and signatures the sequential HTTP analyzer reports for the same capture (whose labels the sub-check http-signatures judges); non-trivial: every batch (same-host and IPv6 connections in each)",
+        true,
+        nb,
+        |bi, st| {
+            st.evals += conns.chunks(PAR_BATCH).nth(bi as usize).map(|b| b.len()).unwrap_or(0) as u64;
+            st.nontrivial(&bi);
+            match check_parallel_batch(&conns, bi) {
+                Ok(true) => {}
+                Ok(false) => {
+                    st.class("result-channel-not-closed(inconclusive)");
+                    st.discards += 1;
+                }
+                Err(f) => st.fail(f, json!({"batch": bi})),
+            }
+            if bi % 5 == 0 {
+                st.sample(|| json!({"batch": bi, "workers": 2 + (bi as usize % 6)}));
+            }
+        },
+    );
+}
+
+// ------------------------------------------------------------------------------------------------
 // generated databases, built outside the catalogued failure classes: every failure is a violation
 // ------------------------------------------------------------------------------------------------
 use crate::gen::sig::{OptS, TcpSigS, TtlS, WinS};
@@ -869,6 +979,10 @@ pub fn replay(_ctx: &Ctx, sub: &str, input: &serde_json::Value) -> Result<(), Fa
         let c: GenDb = serde_json::from_value(input["value"].clone()).map_err(|e| fail!("bad-replay", "{e}"))?;
         let mut st = Stats::new();
         return check_generated(&c, &mut st);
+    }
+    if sub == "http-signatures-parallel-mode" {
+        let bi = input["value"]["batch"].as_u64().or_else(|| input["input"]["batch"].as_u64()).or_else(|| input["batch"].as_u64()).ok_or_else(|| fail!("bad-replay", "no batch index"))?;
+        return check_parallel_batch(&parallel_conns(), bi).map(|_| ());
     }
     Err(fail!("bad-replay", "C13 enumerates the bundled signatures deterministically: re-run the check; the failing (line, class) is in the VIOLATION detail"))
 }
